@@ -86,7 +86,7 @@ def gfOp (f : List String) : Option String :=
     let fld := newField (← pp.toNat?) (← size.toNat?) (← base.toNat?)
     let p := newPoly (← nats p)
     match (← nats dc) with
-    | [d, c] => pure ("ok r=" ++ joinNats (mulMonomial fld p d c))
+    | [d, c] => pure ("ok r=" ++ joinNats (mulMonomial fld p d c) ++ " guard=1")
     | _ => none
   | ["poly", pp, size, base, op, p, q] => do
     let fld := newField (← pp.toNat?) (← size.toNat?) (← base.toNat?)
@@ -96,11 +96,11 @@ def gfOp (f : List String) : Option String :=
     let acc := fun (r : Poly) =>
       s!" deg={degree r} zero={if isZero r then 1 else 0} lo={coeff r 0} hi={coeff r (degree r).toNat}"
     match op with
-    | "add" => let r := polyAdd p q; pure ("ok r=" ++ joinNats r ++ acc r)
-    | "mul" => let r := polyMul fld p q; pure ("ok r=" ++ joinNats r ++ acc r)
+    | "add" => let r := polyAdd p q; pure ("ok r=" ++ joinNats r ++ acc r ++ " guard=1")
+    | "mul" => let r := polyMul fld p q; pure ("ok r=" ++ joinNats r ++ acc r ++ " guard=1")
     | "div" =>
       let (quo, rem) := polyDiv fld p q
-      pure (s!"ok q={joinNats quo} r={joinNats rem}" ++ acc rem)
+      pure (s!"ok q={joinNats quo} r={joinNats rem}" ++ acc rem ++ " guard=1")
     | _ => none
   | ["rs", pp, size, base, calls] => do
     let fld := newField (← pp.toNat?) (← size.toNat?) (← base.toNat?)
@@ -111,7 +111,9 @@ def gfOp (f : List String) : Option String :=
     let (outs, _) := calls.foldl (fun (acc : List String × Cache) (c : Nat × List Nat) =>
       let (r, cache') := encodeWith fld acc.2 c.2 c.1
       (acc.1 ++ [joinNats r], cache')) ([], newEncoder)
-    pure ("ok r=" ++ String.intercalate ";" outs)
+    -- `guard`: the harness hands `Encode` windows into a larger buffer and checks that nothing outside `data[:len]`
+    -- (and nothing inside it) was written; the model is a function, so the guard always holds
+    pure ("ok r=" ++ String.intercalate ";" outs ++ " guard=1")
   | _ => none
 
 def miscOp (f : List String) : Option String :=
